@@ -172,7 +172,14 @@ class ChargeMonitor(Base):
         # switched off and the residual currents decay towards zero)
         floor = 0.0
         if psi is not None:
-            mag = float(np.max(np.abs(psi))) ** 2 + (float(np.max(np.abs(mu))) if mu is not None else 0.0)
+            # (the constant in mu is arbitrary, and a large one does add rounding noise to every potential difference; but only so much
+            # is credited: a constant beyond 1e6 x (1 + spread of mu) is what an INCONSISTENT Neumann problem - net injected current
+            # not zero - makes of the singular factorisation, and the noise it causes is the symptom, not an excuse)
+            mu_mag = 0.0
+            if mu is not None:
+                mu_ = np.asarray(mu, dtype=float)
+                mu_mag = min(float(np.max(np.abs(mu_))), 1e6 * (1.0 + float(np.ptp(mu_)))) if np.all(np.isfinite(mu_)) else float("inf")
+            mag = float(np.max(np.abs(psi))) ** 2 + mu_mag
             floor = 32 * np.finfo(float).eps * float(g.abs_flow(mag / g.elen).max())
         scale = scale + floor / self.GATE
         res = np.abs(out - exp)
